@@ -1099,6 +1099,28 @@ MUTANTS = [
                     let arc = Arc::new(value);
 """, nth=0,
          expect="C15.a/Interner::intern/double-checked-insertion"),
+    dict(id="C11.d-rocksdb-insert-member-addresses-a-wide-column", prop="C11", file=ST + "kv_database/rocksdb.rs",
+         old="        let cf = self.db.get_or_create_cf::<C>(ColumnKind::KeyOfSet);", new="        let cf = self.db.get_or_create_cf::<C>(ColumnKind::WideColumn);", nth=0,
+         expect="C11.d/rocksdb/column-kind-per-site-family"),
+    dict(id="C11.d-fjall-buffer-delete-member-addresses-a-wide-column", prop="C11", file=ST + "kv_database/fjall.rs",
+         old="            cf: self.db.get_or_create_keyspace::<C>(ColumnKind::KeyOfSet),", new="            cf: self.db.get_or_create_keyspace::<C>(ColumnKind::WideColumn),", nth=1,
+         expect="C11.d/fjall/column-kind-per-site-family"),
+    dict(id="C09.g-cache-consulted-before-the-staging-snapshot-and-hit-returns-without", prop="C09", file=ST + "key_of_set_map/cache.rs",
+         old="""            let staging_snapshot = self.get_staging_snapshot(key);
+            let mut spilled = None;
+
+            if let Some(entry) = self.repr.cache.get(key) {
+                return (entry, staging_snapshot, spilled);
+            }
+""", new="""            let mut spilled = None;
+
+            if let Some(entry) = self.repr.cache.get(key) {
+                return (entry, StagingShapshot { added: Default::default(), removed: Default::default() }, spilled);
+            }
+
+            let staging_snapshot = self.get_staging_snapshot(key);
+""",
+         expect="C09.g/key-of-set/staging-sampled-before-the-store"),
     # ------------------------------------------------------------------ C09.f (D5)
     dict(id="C09.f-D5-fold-heap-in-arbitrary-order", prop="C09", file=ST + "key_of_set_map/cache.rs",
          old="""        let mut ordered = log.iter().collect::<Vec<_>>();
